@@ -22,38 +22,65 @@ CFG = {
                   "VotingProposalBuilder totals, TransactionBuilder get_deposit / get_implicit_input / get_total_input / get_total_output) "
                   "equals the ledger's deposit/refund table over the 19 certificate kinds, for ALL certificate, withdrawal and proposal "
                   "lists and parameters, with totals >= 2^64 reported as errors and helper = builder; two probe-confirmed defects of the "
-                  "helpers are excluded as decidable known classes and refuted by witnesses. The model is tied to the compiled code by an "
-                  "exact differential run on real Certificate / TransactionBody / builder values.",
+                  "helpers (both repaired in /repo) are kept as refuted statements with witnesses. Items carry identities (credential, pool "
+                  "operator, other fields): the set / map types of body and builders are modelled (equal values merged or rejected, a reward "
+                  "account's amount replaced) and proved to hold exactly the distinct items, so the figures are those of the merged items and "
+                  "items that merely share a field are charged separately. The per-certificate table is proved equal to the Conway ledger's "
+                  "STATEFUL accounting (registered pools / credentials / DReps, in-transaction registrations) under explicit premises, with a "
+                  "closed counterexample for each premise; the builder totals are proved equal on lovelace to C05's multi-asset model. The "
+                  "model is tied to the compiled code by an exact differential run on real Certificate / TransactionBody / builder values.",
     "level_note": "Trusted: Coq kernel; the hand-written model (tied by correspondence only on the generated cases); the transcription of the "
-                  "ledger's deposit/refund rules into Deposits.v (ledger_deposit / ledger_refund, pinned by a Check in Props/C20.v); "
-                  "extraction (ExtrOcamlBasic) and the OCaml/Rust glue. No axioms. Pool registrations are counted as first registrations and "
-                  "legacy deregistrations refund the key_deposit parameter (the ledger state is not available to the library).",
+                  "ledger's deposit/refund rules into Deposits.v (ledger_deposit / ledger_refund, pinned by a Check in Props/C20.v) and of its "
+                  "stateful accounting and deposit checks into LedgerState.v; extraction (ExtrOcamlBasic) and the OCaml/Rust glue. No axioms. "
+                  "Pool registrations are counted as first registrations and legacy deregistrations refund the key_deposit parameter (the ledger "
+                  "state is not available to the library): C20_ledger_state_rule states both as quantified premises over the ledger state.",
     "level": "proof",
     "theorems": ["C20_helper_deposit_spec", "C20_helper_implicit_input_spec", "C20_builder_deposit_spec", "C20_builder_refund_spec",
                  "C20_builder_totals_spec", "C20_helper_equals_builder", "C20_overflow_is_error", "C20_helpers_never_wrap",
                  "C20_order_irrelevant", "C20_helper_implicit_input_refuted", "C20_helper_deposit_refuted",
-                 "C20_repaired_helpers_spec", "C20_judge_accepts_model"],
+                 "C20_repaired_helpers_spec", "C20_judge_accepts_model",
+                 "C20_collections_hold_distinct_items", "C20_withdrawals_last_amount_wins", "C20_shared_fields_do_not_merge",
+                 "C20_identified_judge_accepts_model", "C20_positional_cases_unchanged",
+                 "C20_ledger_state_rule", "C20_helpers_equal_ledger_state_rule", "C20_ledger_state_premises_needed",
+                 "C20_totals_bridge_deposit_implicit", "C20_totals_bridge_ada_only", "C20_totals_bridge_lovelace"],
     "allowed_axioms": [],
     "compare": "exact",
     "nontrivial": _nontrivial,
     "rule": "cases: every certificate kind alone (19 kinds x amounts x key/script credential), absent/empty collections in all 27 combinations, "
             "random mixtures of certificates/withdrawals/proposals/inputs/outputs/donation with realistic and with edge-biased 64-bit amounts, "
-            "deposit-side and refund-side totals split to sum to 2^64-2..2^64+2, balancing totals at the boundary, long sequences; every case is "
+            "deposit-side and refund-side totals split to sum to 2^64-2..2^64+2, balancing totals at the boundary, long sequences; items that share "
+            "some identifying field and differ in another (one pool operator registered several times with other parameters / retired / delegated to; "
+            "one stake credential registered through kinds 0, 7, 11, 12, 13 and deregistered through 1, 8 in one body; one DRep credential registered, "
+            "updated, deregistered; proposals differing only in deposit or return address), exact duplicates (merged by the sets, rejected by "
+            "CertificatesBuilder::add), near-duplicates differing in exactly one field, a reward account given two or three amounts (replacement in "
+            "Withdrawals::insert and WithdrawalsBuilder::add), and totals of 2^64-2..2^64+2 where merging or keeping one item decides between a number "
+            "and an overflow; every case is "
             "run through real Certificate/Withdrawals/VotingProposals values: helpers on a hand-made body, on its wire round trip and on the "
             "body built by TransactionBuilder, the three sub-builders, the transaction builder and the deprecated set_certs/set_withdrawals; "
+            "the sizes of the six collections are compared with the model's merged sizes; "
             "non-trivial = distinct case line whose model observation has a positive deposit or implicit-input figure",
     "trusted_base": [
         "spec transcription Deposits/Deposits.v: ledger_deposit / ledger_refund over the Conway CDDL certificate numbers 0..18 (Conway ledger "
         "totalTxDeposits / refunds: key deposits, pool deposit on registration, DRep deposits, proposal deposits; stake and DRep deregistration refunds; "
         "pool retirement refunds nothing inside the transaction)",
-        "harness constructs items that are pairwise distinct (salted credentials), so the sets / maps of the library do not merge them",
+        "spec transcription Deposits/LedgerState.v: shelleyTotalDepositsTxCerts / shelleyTotalRefundsTxCerts / conwayDRepRefundsTxCerts / "
+        "conwayTotalDepositsTxCerts and the deposit checks of the DELEG / GOVCERT rules (cardano-ledger, Conway era), used only by C20_ledger_state_rule, "
+        "C20_helpers_equal_ledger_state_rule, C20_ledger_state_premises_needed",
+        "harness constructs each item from the identities of its case line (cred / pool / var) injectively in exactly the fields Ident.v lists for its "
+        "kind (uses_cred / uses_pool / uses_var), so two items are equal Rust values iff their model keys are equal",
     ],
     "assumptions": [
-        "pool registrations are counted as first registrations (a re-registration pays no deposit; only the ledger state can tell)",
-        "legacy stake_deregistration (certificate 1) refunds the key_deposit parameter given by the caller",
-        "values are ADA-only (no multi-asset, no mint) in the modelled TransactionBuilder totals",
-        "known classes excluded from the helper theorems: C20-pool-retirement-refund (body retires a pool and pool_deposit <> 0), "
-        "C20-deposit-ignores-proposals (body carries a proposal with non-zero deposit)",
+        "pool registrations are counted as first registrations (a re-registration, or a second registration of one operator in the same "
+        "transaction, pays no deposit in the ledger; only the ledger state can tell): premise pools_fresh of C20_ledger_state_rule, shown necessary "
+        "by C20_ledger_state_premises_needed",
+        "legacy stake_deregistration (certificate 1) refunds the key_deposit parameter given by the caller: premise legacy_at_key_deposit of "
+        "C20_ledger_state_rule (the credential was registered at key_deposit), shown necessary by C20_ledger_state_premises_needed",
+        "the stateful rule is stated for sequences that pass the ledger's own deposit checks (premise certs_valid: explicit deposit = parameter, explicit "
+        "refund = recorded deposit, register only unregistered, deregister only registered); the per-certificate theorems have no such premise",
+        "values are ADA-only (no multi-asset, no mint) in C20's own TransactionBuilder totals; C20_totals_bridge_* ties them to C05's multi-asset model "
+        "with mint and burn (equal on ADA-only states, equal on lovelace for every well-formed state)",
+        "the two former known classes (C20-pool-retirement-refund, C20-deposit-ignores-proposals) are fixed in /repo; their class predicates are "
+        "constantly false and the *_refuted theorems keep the witnesses",
     ],
     "explanation": "Theorems quantify over all certificate/withdrawal/proposal lists and parameters (no range premises); the correspondence run ties "
                    "the Gallina model to the compiled helpers and builders on seeded boundary-biased cases built from real library values; the "
